@@ -24,7 +24,7 @@ def escChar (x : Nat) : Str :=
   else ctrlEscape x
 
 theorem escape_flatMap (s : Str) : escapeJsonString s = s.flatMap escChar := by
-  simp only [escapeJsonString, replaceAll_single, List.flatMap_assoc, Bool.false_eq_true, if_false]
+  simp only [escapeJsonString, escapeChain, replaceAll_single, List.flatMap_assoc, Bool.false_eq_true, if_false]
   congr 1
   funext x
   unfold escChar
